@@ -12,6 +12,51 @@ TRUST = ("Trusted base: the checker's own CFG construction, callee resolution (a
          "exceptions are not modelled; nothing in /repo is imported or executed.")
 
 CLAIMS = {
+    "C01": dict(
+        text="Partial (the gate, not the numbers): PLACE/REPLACE reach the exchange only through the controls "
+             "(dominance), all controls called under one ControlError handler, default registration, refusal "
+             "mechanics, the three limit tests (presence, orientation, reached for PLACE and REPLACE, value "
+             "dependencies, BACK/LAY figure), request parameters visible to the controls, exclusion/new_order "
+             "aliasing, which orders exposure counts, the control-free path. Known findings F01 (replace / "
+             "Betdaq update validated on the old price and size) and F02 (replaced order left out of the market "
+             "figure) are reported on every run. Not decided: exposure arithmetic; the loss bound over all later histories.",
+        technique="CFG dominance + guard-set + comparator orientation + def-use slice + alias (possible-value) analysis + who-may-call",
+        design="§3 C01"),
+    "C04": dict(
+        text="Partial: derived remainder subtracts exactly the four buckets; every bucket write is bounded by "
+             "the remainder (named exceptions: LAY SP re-size, the runner-removal void as a complete group); "
+             "every FAILURE / fill-or-kill exit of place() empties the remainder; fills only through the fill "
+             "funnel, passive fills clamped; completion tests compare with zero. Not decided: rounding, "
+             "numeric non-negativity, crossing-match arithmetic.",
+        technique="who-may-write with bounded-write forms + must-precede on the CFG per exit + who-may-call",
+        design="§3 C04"),
+    "C07": dict(
+        text="Partial: clock -> release of due packages -> new book ordering in every iteration (dominance), "
+             "release loop shape and strict test, delay table, queue discipline, and a mode-sensitive lint that "
+             "every simulation-reachable function reads time only through the patchable module attribute. "
+             "Not decided: numeric relation between timestamps and publish times.",
+        technique="CFG dominance/must-pass-through + table extraction + call-graph reachability lint (mode-sensitive)",
+        design="§3 C07"),
+    "C09": dict(
+        text="Partial: removal registry key vs lifetime (known finding F06: key lacks the market), applied once "
+             "and before matching, void resets every figure, range over the whole blotter, selection by "
+             "(market, selection, handicap), threshold 2.5 / floor 1.01 / reduction formula shape, SP "
+             "liability scaling scope, placement on a removed runner refused before matching. Not decided: "
+             "scaling formulas; completion of SP orders on a removed runner.",
+        technique="key agreement vs object lifetime + who-may-write + dominance + constants vs published figures",
+        design="§3 C09"),
+    "C19": dict(
+        text="Partial: writer/reader agreement of the reference format (slices at the writer's hash length), "
+             "32-character bound computed from the id's digit count, character set equals the documented one, "
+             "validating setter discipline, id independent of the patched clock. Not decided: uniqueness.",
+        technique="writer/reader table agreement + length arithmetic in the checker + charset evaluation + who-may-write",
+        design="§3 C19"),
+    "C20": dict(
+        text="Partial: closure sequence (presence, guards, order by dominance), strategy loop shape and "
+             "condition, re-open resets, removal policy (3600 s live, clear=False in simulation), results "
+             "assigned to every order from its own runner. Not decided: event counts over repeated closes in a whole run.",
+        technique="call-set and ordering by dominance + loop shape + who-may-write",
+        design="§3 C20"),
     "C02": dict(
         text="Full structural decision: validate-before-mutate (dominance under force=False), refusal edge, "
              "raise-after-write, a refusal marks only a new order (typestate), pairing table request/pending "
